@@ -215,6 +215,17 @@ func (s *JavaRefactorListener) EnterExpression(ctx *ExpressionContext) {
 	}
 }
 
+// a bare name (`int x = MAX;`): a constant brought in by `import static`
+func (s *JavaRefactorListener) EnterPrimary(ctx *PrimaryContext) {
+	if ctx.Identifier() == nil {
+		return
+	}
+	startLine := ctx.GetStart().GetLine()
+	stopLine := ctx.GetStop().GetLine()
+	field := model.JField{Name: ctx.Identifier().GetText(), Source: node.Pkg, StartLine: startLine, StopLine: stopLine}
+	node.AddField(field)
+}
+
 func isUppercaseText(text string) bool {
 	return !strings.Contains(text, ".") && unicode.IsUpper([]rune(text)[0])
 }
